@@ -455,7 +455,7 @@ Fixpoint gassoc (h : list lang) (l : lang) (t : list (list lang * lang * gen_res
 """
 
 
-def coq_source(cases, L):
+def coq_source(cases, L, shards=1):
     out = []
     consts = {}
 
@@ -507,7 +507,10 @@ def coq_source(cases, L):
             fsl = "[" + "; ".join("(%s, %s)" % (g_bytes(u8(p)), const(b)) for p, b in c.files.items()) + "]"
             argl = "[" + "; ".join(const(u8(a)) for a in c.args) + "]"
             evals.append('Eval vm_compute in ("<<<%s>>>" ++ show_result (exec F P G %s %s)).' % (c.id, argl, fsl))
-    return "\n".join(out + body + evals) + "\n"
+    if shards <= 1:
+        return "\n".join(out + body + evals) + "\n"
+    # the same tables in every shard, the evaluations dealt round-robin
+    return ["\n".join(out + body + evals[k::shards]) + "\n" for k in range(shards)]
 
 
 def unesc(s):
@@ -593,13 +596,17 @@ def main():
         real[c.id] = r
     core.log("real runs done (%.1fs)" % t.s())
     # model
-    src = coq_source(cases, L)
-    rc, cout, cerr = core.coq_eval("cases_cli", src, prelude=PRELUDE, timeout=1500)
-    if rc != 0:
-        print(cerr[-3000:])
-        print("coqc failed on Run/cases_cli.v")
-        sys.exit(2)
-    res = core.parse_results(cout)
+    srcs = coq_source(cases, L, shards=8)
+    from concurrent.futures import ThreadPoolExecutor
+    with ThreadPoolExecutor(max_workers=8) as ex:
+        outs = list(ex.map(lambda kv: core.coq_eval("cases_cli_%d" % kv[0], kv[1], prelude=PRELUDE, timeout=1500), list(enumerate(srcs))))
+    res = {}
+    for rc, cout, cerr in outs:
+        if rc != 0:
+            print(cerr[-3000:])
+            print("coqc failed on Run/cases_cli_*.v")
+            sys.exit(2)
+        res.update(core.parse_results(cout))
     core.log("model evaluated: %d results (%.1fs)" % (len(res), t.s()))
     mism = []
     dist = collections.Counter()
